@@ -78,7 +78,8 @@ Proof.
      | Ok (wr', path') =>
        let '(okf, w2a, wra) := w_flush w2 wr in
        let '(rc, w4) := cleanup_or_queue c (w_drop (if okf then w2a else report EFlush w2a) wra) false KNever
-                          (ns_filter (NSTs (wnow q) (Some cur_infix) std_fmt)) (ns_writes_direct (NSTs (wnow q) (Some cur_infix) std_fmt)) in
+                          (ns_filter (NSTs (wnow q) (Some cur_infix) std_fmt))
+                          (if ns_writes_direct (NSTs (wnow q) (Some cur_infix) std_fmt) then Some path' else None) in
        (match rc with Ok _ => Ok tt | Err => Err | Panic => Panic end, w4,
         Active (Some {| rs_naming := NSTs (wnow q) (Some cur_infix) std_fmt;
                         rs_roll := reset_size_and_date (w_drop (if okf then w2a else report EFlush w2a) wra) (RSize m cur) path';
